@@ -92,6 +92,13 @@ EXPECT = [
     ("keyword_does_not_fill_positional", "f := {|a, b| [a, b]}\n[f(1), f(1, b: 2), f(b: 2), f(1, **{b: 3})].p\ng := {|name, opts| [name, opts, \\name]}\ng(name: \"kw\").p\n"
      "o := {show: m{|prefix| [prefix, \\0.len]}}\no.show(prefix: \">>\").p\nit := <{|i, lim| yield [i, lim] if i < 2; recur(i + 1, lim: 9)}>.new(0, lim: 5)\nit.A.p\n",
      '[[1, nil], [1, nil], [nil, nil], [1, nil]]\n[nil, nil, "kw"]\n[nil, 2]\n[[0, nil], [1, nil]]\n'),
+    # an iterator literal written inside the body of another one has its OWN `recur`
+    ("nested_iterators_have_their_own_recur", "table := <{|n|\n  row := <{|i| yield n * i; recur(i + 1)}>.new(1)\n  yield [n, row.next, row.next, row.next]\n  recur(n + 10)\n}>.new(1)\n"
+     "[table.next, table.next, table.next].p\n", "[[1, 1, 2, 3], [11, 11, 22, 33], [21, 21, 42, 63]]\n"),
+    # `new` without arguments binds like a call without arguments: missing parameters are nil, keyword parameters take their defaults
+    ("iter_new_without_arguments", 'i := "outer i"\nstep := "outer step"\ngen := <{|i, step: 1| yield [i, step]}>\n[gen.new.next, gen.new(5).next].p\n'
+     'mk := {|i| <{|i| yield [i]}>.new}\nmk("arg of mk").next.p\nit := <{|n| yield n; recur(n + 1)}>.new(1)\nit.next\nit.next\n'
+     "[it.new.next, <{|a| yield [\\0, \\_]}>.new.next].p\n", "[[nil, 1], [5, 1]]\n[nil]\n[nil, [[nil], {}]]\n"),
     ("list_chain_builtin_three_args", '[(0:1), (0:2)]@new(10, 20, 5)@S.p\n[[1, 2], [3, 4]]@join("-").p\n["a", "b", "c"]@*(3).p\n',
      '["(10:20:5)", "(10:20:5)"]\n["1-2", "3-4"]\n["aaa", "bbb", "ccc"]\n'),
 ]
@@ -305,5 +312,17 @@ def main(chk):
                     "model_verdict": res[i]["verdict"]})
     chk.cov["rule"] += " Added after seeded round 5: keyword parameters / keyword variables with private names, a closure with a free `self` installed on another object, list chains whose property call has 1..8 arguments in the four list contexts."
     chk.cov["rule"] += " Added after seeded round 6: `new` on a started iterator binds only the new one, names with equal 32-bit hashes, a keyword never fills a positional parameter."
+    # functions of an imported module never see the scope of the function that imports or calls them (files: harness runtest)
+    mdir = os.path.join(BUILD, "c03_modules_%d" % os.getpid())
+    mfiles = [["main.pangaea", 'prefix := "top"\nf := import("./lib")[\'label]\nassertEq(f(1), "top: 1")\n'
+               'run := {|prefix|\n  sep := " / "\n  g := import("./lib")[\'label]\n  g(2)\n}\nassertEq(run("local"), "top: 2")\n'
+               'assertEq({|prefix| import("./lib")}("inner")[\'label](3), "top: 3")\n"modules done".p\n'],
+              ["lib.pangaea", 'sep := ": "\nlabel := {|x| prefix + sep + x.S}\n']]
+    mo = harness("runtest", [{"files": mfiles, "dir": mdir, "mode": "file"}])[0]
+    chk.count(("module-scope", "runtest"), True)
+    if not (mo["code"] == 0 and "modules done" in mo["out"]):
+        viol.append(("a function of an imported module sees the scope of the function that imported it: exit %s, stderr %r" % (mo["code"], mo["err"][:300]),
+                     {"harness": "runtest", "files": mfiles, "got": mo, "want": "exit 0"}, "C03:module-scope"))
+
     return pancore.conclude(chk, ok, broken, "Props/C03.v", res, viol, model_only, "C03",
                             "Core.Interp vs evaluator/{eval_funccall,eval_func,eval_assign,eval_ident,eval_args,eval_kwargs}.go, object/env.go")
